@@ -171,6 +171,34 @@ Definition read_one (qs : str) (body : list N) (a : accessor) : qres fdict :=
 Definition read_seq (qs : str) (body : list N) (order : list accessor) : list (qres fdict) :=
   map (read_one qs body) order.
 
+(* ---- one request whose query string / body are REPLACED between reads ----
+   request['QUERY_STRING'] = qs     (Request.__setitem__ -> _on_env_changed drops query, params)
+   request['wsgi.input'] = BytesIO(b); request['CONTENT_LENGTH'] = str(len(b))
+                                    (drops forms, files, params, post, json, body / content_length)
+   so a read always decodes what the request carries at that moment: the state
+   is just (qs, body). *)
+Inductive op :=
+| ORead (a : accessor)
+| OSetQs (qs : str)
+| OSetBody (b : list N).
+
+Definition rstate := (str * list N)%type.
+
+Definition apply_op (st : rstate) (o : op) : rstate :=
+  match o with
+  | ORead _ => st
+  | OSetQs q => (q, snd st)
+  | OSetBody b => (fst st, b)
+  end.
+
+(* the results of the reads, in order *)
+Fixpoint run_ops (st : rstate) (ops : list op) : list (qres fdict) :=
+  match ops with
+  | [] => []
+  | ORead a :: r => read_one (fst st) (snd st) a :: run_ops st r
+  | o :: r => run_ops (apply_op st o) r
+  end.
+
 (* ---- correspondence interface ---- *)
 
 Definition enc_fval (v : fval) : list Z :=
@@ -195,6 +223,7 @@ Definition with_str (r : list Z) (f : str -> list Z -> list Z) : list Z :=
 (* first integer = kind:
      0 query(qs)          1 forms(body)        2 params(qs, body)     3 parse_qsl(qs) pairs
     4 read_seq(qs, body, order)   (order: 0 query, 1 forms, 2 params)
+    6 run_ops((qs, body), ops)    (op: 0 a = read | 1 str = set QUERY_STRING | 2 bytes = set body)
     10 utf8_encode s     11 utf8_dec bs       12 utf8_dec_replace bs
     20 quote s           21 quote_plus s      22 unquote s            23 unquote_to_bytes s (ASCII)
     24 urlencode pairs   25 urlencode_q pairs 26 quote(s, safe='/')                           *)
@@ -211,6 +240,19 @@ Definition corr_C18_base (inp : list Z) : list Z :=
                     enc_list (enc_qres enc_fdict)
                              (read_seq qs b (map (fun z => if Z.eqb z 0 then AQuery
                                                            else if Z.eqb z 1 then AForms else AParams) order))
+                  | None => bad_input
+                  end))
+  | 6%Z :: r => with_str r (fun qs r' => with_str r' (fun b r'' =>
+                  match dec_list (fun l => match l with
+                                           | 0%Z :: z :: l' => Some (ORead (if Z.eqb z 0 then AQuery
+                                                                            else if Z.eqb z 1 then AForms else AParams), l')
+                                           | 1%Z :: l' => match dec_str l' with
+                                                          | Some (s, l'') => Some (OSetQs s, l'') | None => None end
+                                           | 2%Z :: l' => match dec_str l' with
+                                                          | Some (s, l'') => Some (OSetBody s, l'') | None => None end
+                                           | _ => None
+                                           end) r'' with
+                  | Some (ops, _) => enc_list (enc_qres enc_fdict) (run_ops (qs, b) ops)
                   | None => bad_input
                   end))
   | 10%Z :: r => with_str r (fun s _ => enc_opt_str (utf8_encode s))
